@@ -49,6 +49,9 @@ type context struct {
 	newRefs  map[string]*newRef
 	warnings []string
 	resolved map[string]string
+
+	// names of the definitions created with a generated name, to solve a naming conflict
+	generated map[string]struct{}
 }
 
 func newContext() *context {
@@ -56,6 +59,8 @@ func newContext() *context {
 		newRefs:  make(map[string]*newRef, allocMediumMap),
 		warnings: make([]string, 0),
 		resolved: make(map[string]string, allocMediumMap),
+
+		generated: make(map[string]struct{}, allocMediumMap),
 	}
 }
 
@@ -361,6 +366,9 @@ func importNewRef(entry sortref.RefRevIdx, refStr string, opts *FlattenOpts) err
 	debugLog("new name for [%s]: %s - with name conflict:%t", strings.Join(entry.Keys, ", "), newName, isOAIGen)
 
 	opts.flattenContext.resolved[refStr] = newName
+	if isOAIGen {
+		opts.flattenContext.generated[newName] = struct{}{}
+	}
 
 	// rewrite the external refs to local ones
 	for _, key := range entry.Keys {
@@ -470,7 +478,11 @@ func importExternalReferences(opts *FlattenOpts) (bool, error) {
 		r.newName = path.Base(k)
 		r.schema = spec.RefSchema(r.path)
 		r.path = k
-		r.isOAIGen = strings.Contains(k, "OAIGen")
+		// this $ref is held by a definition with a generated name: names of the user's may merely look like one
+		r.isOAIGen = false
+		if parts := sortref.KeyParts(k); parts.IsDefinition() {
+			_, r.isOAIGen = opts.flattenContext.generated[parts[1]]
+		}
 	}
 
 	return complete, nil
